@@ -22,6 +22,7 @@ import (
 	"slices"
 	"strings"
 	"sync"
+	"sync/atomic"
 	"testing"
 
 	"github.com/ovh/kmip-go"
@@ -91,6 +92,10 @@ type script struct {
 	seen   []string
 	// attempts[i]: how often the handler of item i has run (an application's retrying item middleware)
 	attempts map[int]int
+	// running: handlers of this request inside HandleOperation right now; overlap: two were at the same time ("each item's handler
+	// runs ... in order": the handler of item i has returned before the one of item i+1 starts)
+	running atomic.Int32
+	overlap atomic.Bool
 }
 
 func phToken(s string) []int {
@@ -137,11 +142,24 @@ func (handler) HandleOperation(ctx context.Context, req kmip.OperationPayload) (
 			panic("script mismatch")
 		}
 	}
+	if sc.running.Add(1) > 1 {
+		sc.overlap.Store(true)
+	}
+	defer sc.running.Add(-1)
+	for k := 0; k < 3; k++ {
+		runtime.Gosched() // give a handler that was started alongside this one the chance to show
+	}
 	ph := kmipserver.IdPlaceholder(ctx)
 	// resolving the item's identifier is a read: it returns the item's own identifier, or the placeholder when the item omits it,
 	// and leaves the placeholder as it is
 	if got, err := kmipserver.GetIdOrPlaceholder(ctx, pl.UniqueIdentifier); pl.UniqueIdentifier != "" && (err != nil || got != pl.UniqueIdentifier) {
 		panic(fmt.Sprintf("GetIdOrPlaceholder(%q) = %q, %v", pl.UniqueIdentifier, got, err))
+	}
+	// ... and without an identifier of its own the item gets the placeholder exactly as IdPlaceholder shows it (an error when it is empty)
+	if got, err := kmipserver.GetIdOrPlaceholder(ctx, ""); (ph == "") != (err != nil) || got != ph {
+		sc.mu.Lock()
+		sc.reads = append(sc.reads, [2]any{i, []int{-2, -2}}) // shows as a wrong read
+		sc.mu.Unlock()
 	}
 	sc.mu.Lock()
 	sc.called = append(sc.called, i)
@@ -433,6 +451,8 @@ type outcome struct {
 	Hdr    Hdr
 	Panic  string
 	Seen   []string
+	// Overlap: two handlers of the request were running at the same time
+	Overlap bool
 }
 
 // reuseMsg: when set, execute hands this message object to the executor instead of building one (an application may send the same
@@ -449,7 +469,7 @@ func execute(ex *kmipserver.BatchExecutor, parent context.Context, rid, uid int,
 	if msg == nil {
 		msg = buildRequest(uid, q)
 	}
-	defer func() { out.Seen = sc.seen }()
+	defer func() { out.Seen, out.Overlap = sc.seen, sc.overlap.Load() }()
 	if trace != nil {
 		trace.Emit(map[string]any{"ev": "start", "r": rid, "u": uid, "req": q})
 	}
@@ -569,6 +589,8 @@ func TestReplay(t *testing.T) {
 			}
 			if norm(nz(o.Called)) != norm(nz(c.Called)) {
 				diffs = append(diffs, "called")
+			} else if o.Overlap {
+				diffs = append(diffs, "called:handlers-of-one-request-ran-at-the-same-time")
 			}
 			if norm(o.Resp) != norm(c.Resp) && !(len(o.Resp) == 0 && len(c.Resp) == 0) {
 				diffs = append(diffs, "resp")
